@@ -231,6 +231,20 @@ func (tr *trans) nilCheck(l *Loc, pos token.Pos, what string) {
 func (tr *trans) unop(x *ssa.UnOp, st State) {
 	switch x.Op {
 	case token.MUL:
+		if fv, ok := x.X.(*ssa.FreeVar); ok && tr.immutableCapture(fv) {
+			// a captured variable that is assigned once, before the closure is made, and never again: its
+			// value is a constant of this activation (no callee can change it)
+			sym := q("fv." + fv.Name() + ".val")
+			tr.vc.declFun(sym, fmt.Sprintf("(declare-const %s %s)", sym, tr.vc.sortOf(x.Type())))
+			tr.setVal(x, sym)
+			if inv := tr.typeInv(sym, x.Type(), tr.entry, 0); inv != "true" {
+				tr.vc.assume(inv)
+			}
+			// keep the cell consistent for specifications that read the variable through the heap
+			l := tr.locOf(x.X)
+			tr.vc.assume(eq(tr.load(st, l), sym))
+			return
+		}
 		l := tr.locOf(x.X)
 		tr.nilCheck(l, x.Pos(), "load")
 		if l.kind == locGlobal {
@@ -1043,4 +1057,79 @@ func (tr *trans) sentVars(et types.Type) (string, string) {
 	tr.stateSort[n] = "(Array Int Int)"
 	tr.stateSort[at] = "(Array Int (Array Int " + tr.vc.sortOf(et) + "))"
 	return n, at
+}
+
+// immutableCapture: the captured variable behind fv is stored exactly once in the enclosing function (its
+// initialisation) and never in any closure.
+func (tr *trans) immutableCapture(fv *ssa.FreeVar) bool {
+	if tr.immCap == nil {
+		tr.immCap = map[*ssa.FreeVar]bool{}
+	}
+	if v, ok := tr.immCap[fv]; ok {
+		return v
+	}
+	res := false
+	defer func() { tr.immCap[fv] = res }()
+	parent := tr.fn.Parent()
+	if parent == nil {
+		return false
+	}
+	idx := -1
+	for i, f := range tr.fn.FreeVars {
+		if f == fv {
+			idx = i
+		}
+	}
+	if idx < 0 {
+		return false
+	}
+	var alloc *ssa.Alloc
+	for _, b := range parent.Blocks {
+		for _, in := range b.Instrs {
+			if mc, ok := in.(*ssa.MakeClosure); ok && mc.Fn == tr.fn && idx < len(mc.Bindings) {
+				a, ok := mc.Bindings[idx].(*ssa.Alloc)
+				if !ok {
+					return false
+				}
+				alloc = a
+			}
+		}
+	}
+	if alloc == nil {
+		return false
+	}
+	stores := 0
+	for _, ref := range *alloc.Referrers() {
+		switch r := ref.(type) {
+		case *ssa.Store:
+			if r.Addr == alloc {
+				stores++
+			} else {
+				return false // address stored somewhere
+			}
+		case *ssa.UnOp, *ssa.DebugRef:
+		case *ssa.MakeClosure:
+			// every closure capturing it must not store through its free variable
+			cf, ok := r.Fn.(*ssa.Function)
+			if !ok {
+				return false
+			}
+			for bi, bv := range r.Bindings {
+				if bv != alloc || bi >= len(cf.FreeVars) {
+					continue
+				}
+				for _, fr := range *cf.FreeVars[bi].Referrers() {
+					switch fr.(type) {
+					case *ssa.UnOp, *ssa.DebugRef:
+					default:
+						return false
+					}
+				}
+			}
+		default:
+			return false
+		}
+	}
+	res = stores == 1
+	return res
 }
